@@ -242,8 +242,12 @@ class Workspace:
             if s["nc"]:
                 d["tags"] = ["no-cache"]
             d["fingerprint"] = {"v": s["fp"]}
+            # every target carries a timeout (not part of the cache key): a generous one that never fires, or 300 ms under the 3 s command
+            # (two histories out of three; the third leaves targets without one)
             if s["cmd"] == "slow":
                 d["timeout"] = "300ms"
+            elif self.opts.get("timeouts", True):
+                d["timeout"] = "120s"
             if t in self.h["checkt"]:
                 if self.h["outkind"][t] == "none":
                     d["output_checks"] = [{"command": f'test -f "$GROG_WORKSPACE_ROOT/../ext/{t}"'}]
@@ -436,6 +440,15 @@ def replay(grog, history, opts, scratch_root, literal_clean=True):
                     os.remove(p)
                 else:
                     note(i, "harness-ext-missing", t=act["t"])
+            elif kind == "corruptresults":
+                tdir = os.path.join(W.cache_dir() or "", "target")
+                nfiles = 0
+                for rootd, _, fs in os.walk(tdir):
+                    for f in fs:
+                        open(os.path.join(rootd, f), "w").write("this is not a target result\n")
+                        nfiles += 1
+                if not nfiles:
+                    note(i, "harness-no-result-files")
             elif kind == "dropblob":
                 t = act["t"]
                 path = os.path.join(W.pkg, W.outpath(t, st["src"][t]["outv"]))
@@ -459,7 +472,14 @@ def replay(grog, history, opts, scratch_root, literal_clean=True):
                 p = W.grog_cmd(W.build_args(act, st), env=benv)
                 if p is None:
                     info = getattr(W, "last_timeout", {})
-                    note(i, "build-hang" if info.get("blocked") else "build-timeout", act=act, mode=act["mode"], model_ok=act["ok"], dec=act["dec"], **info)
+                    # still there after the time limit (hundreds of times what these builds take): blocked (no CPU consumed) or spinning
+                    kind_t = "build-hang" if info.get("blocked") else ("build-spin" if (info.get("cpu_s") or 0) >= 30 else "build-timeout")
+                    note(i, kind_t, act=act, mode=act["mode"], model_ok=act["ok"], dec=act["dec"], **info)
+                    break
+                if p.returncode not in (0, 1) or re.search(r"^(panic: |fatal error: )", p.stderr + p.stdout, re.M):
+                    head = re.search(r"^(panic: [^\n]*|fatal error: [^\n]*)", p.stderr + p.stdout, re.M)
+                    note(i, "build-crash", act=act, mode=act["mode"], rc=p.returncode, what=head.group(1) if head else f"exit status {p.returncode}",
+                         stderr_tail=(p.stderr + p.stdout)[-800:])
                     break
                 lines = open(W.trace).read().split()
                 tl = open(W.trace).read().splitlines()
@@ -566,8 +586,8 @@ def attribute(m):
     a = attribute1(m)
     if m["kind"] == "status" and m["real_ok"] and not m["model_ok"]:
         return {"C05", "C14"}      # the build claims success although a target failed: failure not reported AND success without postconditions
-    if m["kind"] == "build-hang":
-        return {"C04"}
+    if m["kind"] in ("build-hang", "build-spin", "build-crash"):
+        return {"C04"}     # the build does not return, or dies from an internal crash
     if m["kind"] == "exec-set" and m.get("mode") != "minimal" and set(m["real"]) - set(m["model"]):
         # a target executed although the specification serves it from the cache: not minimal re-execution (C02); when targets were
         # forced to execute in that build (taint, no-cache, cache off) also a dependant invalidated although nothing changed (C13)
@@ -669,6 +689,7 @@ def run_histories(chk, tmp, grog, histories, prop, literal_clean, label, opts_of
         i, h = ih
         opts = dict(opts_of(i) if opts_of else {"workers": 1 + i % 4, "hash": ["", "sha256"][i % 2]})
         opts["check_style"] = styles[i % len(styles)]
+        opts.setdefault("timeouts", (i // len(styles)) % 3 != 0)
         return replay(grog, h, opts, tmp, literal_clean=literal_clean)
 
     with ThreadPoolExecutor(core.NCPU) as ex:
